@@ -1,5 +1,5 @@
+import Typegen.Basic
 namespace S
-abbrev Str := List Char
 
 /-- Rust `str::split(',')` -/
 def splitOn (c : Char) : Str → List Str
